@@ -775,5 +775,18 @@ def mon_C11(sc, trace, probes, info):
     return out
 
 
-MONITORS = {'C11': mon_C11, 'till': mon_till, 'C12': mon_C12, 'C16': mon_C16, 'C02': mon_C02, 'C01': mon_C01, 'C03': mon_C03, 'C04': mon_C04, 'C05': mon_C05, 'C07': mon_C07, 'C08': mon_C08,
+def mon_until_dates(sc, trace, probes, info):
+    """C01 for `until(date)`: "exactly at t ..., in the same time step if the time condition already holds, and never if it
+    can no longer hold" for a block guarded by a plain date/delay (no connective, so known finding D4b is not involved): the
+    oracle is C07's (min(trigger time, completion time))"""
+    from harness import gen
+    leaves = ('delay', 'after', 'before', 'moment', 'eternity', 'instant')
+    for r in sc['roots']:
+        for st in gen.walk(r):
+            if st[0] == 'until' and not (isinstance(st[2], list) and st[2] and st[2][0] in leaves):
+                return []
+    return [('[until(date)] ' + e, f) for e, f in mon_C07(sc, trace, probes, info)]
+
+
+MONITORS = {'until_dates': mon_until_dates, 'C11': mon_C11, 'till': mon_till, 'C12': mon_C12, 'C16': mon_C16, 'C02': mon_C02, 'C01': mon_C01, 'C03': mon_C03, 'C04': mon_C04, 'C05': mon_C05, 'C07': mon_C07, 'C08': mon_C08,
             'C09': mon_C09, 'C10': mon_C10}
